@@ -1103,3 +1103,129 @@ Lemma ex_container_bundle :
   wf_items array_open = true /\ wf_items array_close = true
   /\ texts nat ex_render ex_show array_open [9] <> None /\ texts nat ex_render ex_show array_close [] <> None.
 Proof. repeat split; discriminate. Qed.
+
+(* ------------------------------------------------------------------------------------------ *)
+(* the calls made on the sink (what a recording sink sees), with their exact positions,
+   and what has been written when FormatError is raised *)
+
+Fixpoint calls_of (items : list item) (ts : list (list byte)) (pos idx : nat) : list call :=
+  match items, ts with
+  | it :: r, t :: tr =>
+    (match it with
+     | Lit s => CFmt pos s None
+     | Percent => CFmt pos [PCT; PCT] None
+     | Conv f w p l c => CFmt pos (unparse_item it) (Some (conv_kind c, idx))
+     | ShowDollar => CShow pos idx
+     end) :: calls_of r tr (pos + length t) (if consumes it then S idx else idx)
+  | _, _ => []
+  end.
+
+Section CallProofs.
+Variable V : Type.
+Variable render : list byte -> ckind -> V -> option (list byte).
+Variable show : V -> list byte.
+Notation texts := (texts V render show).
+Notation run_items := (run_items V render show).
+
+Lemma run_items_calls : forall items args st ts,
+  wf_items items = true -> texts items (skipn (p_idx st) args) = Some ts ->
+  exists st', run_items items args st = inl st'
+    /\ p_calls st' = rev (calls_of items ts (p_pos st) (p_idx st)) ++ p_calls st.
+Proof.
+  induction items as [|it r IH]; intros args st ts Hwf Ht.
+  - inversion Ht; subst. exists st. split; reflexivity.
+  - apply wf_items_cons in Hwf. destruct Hwf as [H1 [_ H3]].
+    destruct it as [s| |f w p l c|].
+    + cbn [Format.texts consumes item_text] in Ht.
+      destruct (texts r (skipn (p_idx st) args)) as [ts'|] eqn:Et; [|discriminate]. inversion Ht; subst ts.
+      cbn [FormatProofs.run_items tok_of]. rewrite exec_lit.
+      set (st1 := wrote st s (p_idx st) (CFmt (p_pos st) s None)).
+      destruct (IH args st1 ts' H3 Et) as [st' [E C]]. exists st'. split; [exact E|].
+      rewrite C. cbn [calls_of consumes rev st1 wrote p_pos p_idx p_calls]. rewrite <- app_assoc. reflexivity.
+    + cbn [Format.texts consumes item_text] in Ht.
+      destruct (texts r (skipn (p_idx st) args)) as [ts'|] eqn:Et; [|discriminate]. inversion Ht; subst ts.
+      cbn [FormatProofs.run_items tok_of]. rewrite exec_pct.
+      set (st1 := wrote st [PCT] (p_idx st) (CFmt (p_pos st) [PCT; PCT] None)).
+      destruct (IH args st1 ts' H3 Et) as [st' [E C]]. exists st'. split; [exact E|].
+      rewrite C. cbn [calls_of consumes rev st1 wrote p_pos p_idx p_calls]. rewrite <- app_assoc. reflexivity.
+    + cbn [Format.texts consumes] in Ht.
+      destruct (skipn (p_idx st) args) as [|a args'] eqn:Esk; [discriminate|].
+      apply skipn_cons_nth in Esk. destruct Esk as [Hn Hs].
+      cbn [item_text] in Ht.
+      destruct (render (unparse_item (Conv f w p l c)) (conv_kind c) a) as [t|] eqn:Er; [|discriminate].
+      destruct (texts r args') as [ts'|] eqn:Et; [|discriminate]. inversion Ht; subst ts.
+      cbn [FormatProofs.run_items tok_of]. rewrite (exec_conv _ _ _ _ _ a) by (eauto using wf_conv_char). rewrite Er.
+      set (st1 := wrote (arg_taken st) t (S (p_idx st)) _).
+      assert (Et1 : texts r (skipn (p_idx st1) args) = Some ts') by (cbn [st1 wrote p_idx]; rewrite Hs; exact Et).
+      destruct (IH args st1 ts' H3 Et1) as [st' [E C]]. exists st'. split; [exact E|].
+      rewrite C. cbn [calls_of consumes rev st1 wrote arg_taken p_pos p_idx p_calls]. rewrite <- app_assoc. reflexivity.
+    + cbn [Format.texts consumes] in Ht.
+      destruct (skipn (p_idx st) args) as [|a args'] eqn:Esk; [discriminate|].
+      apply skipn_cons_nth in Esk. destruct Esk as [Hn Hs].
+      cbn [item_text] in Ht.
+      destruct (texts r args') as [ts'|] eqn:Et; [|discriminate]. inversion Ht; subst ts.
+      cbn [FormatProofs.run_items tok_of]. rewrite (exec_dollar _ _ _ _ a) by exact Hn.
+      set (st1 := wrote (arg_taken st) (show a) (S (p_idx st)) _).
+      assert (Et1 : texts r (skipn (p_idx st1) args) = Some ts') by (cbn [st1 wrote p_idx]; rewrite Hs; exact Et).
+      destruct (IH args st1 ts' H3 Et1) as [st' [E C]]. exists st'. split; [exact E|].
+      rewrite C. cbn [calls_of consumes rev st1 wrote arg_taken p_pos p_idx p_calls]. rewrite <- app_assoc. reflexivity.
+Qed.
+
+(* every call reaches the sink at the start position plus the length of the texts before it,
+   with the item's own text as the piece *)
+Theorem print_to_calls : forall items args k pos ts,
+  wf_items items = true -> texts items args = Some ts ->
+  exists st, print_to V render show k pos (unparse items) args = ODone st
+    /\ rev (p_calls st) = calls_of items ts pos 0.
+Proof.
+  intros items args k pos ts Hwf Ht. unfold print_to. rewrite print_to_from_items by exact Hwf.
+  destruct (run_items_calls items args (mkP k pos 0 []) ts Hwf Ht) as [st' [E C]].
+  exists st'. rewrite E. split; [reflexivity|]. rewrite C. cbn [p_calls p_pos p_idx].
+  rewrite app_nil_r. apply rev_involutive.
+Qed.
+
+Lemma run_items_app : forall a b args st,
+  run_items (a ++ b) args st =
+  match run_items a args st with inl st' => run_items b args st' | inr st' => inr st' end.
+Proof.
+  induction a as [|it a IH]; intros b args st; [reflexivity|].
+  cbn [app FormatProofs.run_items]. destruct (exec V render show (tok_of it) args st); [apply IH|reflexivity].
+Qed.
+
+Lemma wf_items_app_l : forall a b, wf_items (a ++ b) = true -> wf_items a = true.
+Proof.
+  induction a as [|it a IH]; intros b H; [reflexivity|].
+  cbn [app] in H. apply wf_items_cons in H. destruct H as [H1 [H2 H3]].
+  cbn [wf_items]. rewrite H1, (IH b H3).
+  destruct a as [|it' a']; [reflexivity|]. unfold follows_ok in H2. cbn [app] in H2. rewrite H2. reflexivity.
+Qed.
+
+(* what has been done when the arguments run out: exactly the items before the first one left
+   without argument have been written, nothing of it or after it *)
+Theorem too_few_arguments_partial : forall before it after args k pos ts,
+  wf_items (before ++ it :: after) = true -> consumes it = true ->
+  texts before args = Some ts -> nconsumers before = length args ->
+  exists st, print_to V render show k pos (unparse (before ++ it :: after)) args = ORaise st
+    /\ p_sink st = write_all k pos ts
+    /\ p_pos st = pos + length (concat ts).
+Proof.
+  intros before it after args k pos ts Hwf Hc Ht Hn.
+  unfold print_to. rewrite print_to_from_items by exact Hwf.
+  rewrite run_items_app.
+  pose proof (run_items_texts V render show before args (mkP k pos 0 []) (wf_items_app_l _ _ Hwf)) as R.
+  cbn [p_idx skipn] in R. rewrite Ht in R. destruct R as [st' [E [A [B C]]]].
+  rewrite E. cbn [FormatProofs.run_items].
+  assert (Hnone : nth_error args (p_idx st') = None).
+  { apply nth_error_None. rewrite C. cbn [p_idx]. lia. }
+  assert (Ex : exec V render show (tok_of it) args st' = inr st').
+  { destruct it; try discriminate; cbn [tok_of]; apply exec_noarg; exact Hnone. }
+  rewrite Ex. exists st'. cbn [outcome_of]. cbn [p_sink p_pos] in A, B. repeat split; assumption.
+Qed.
+
+End CallProofs.
+
+Lemma ex_partial_bundle :
+  wf_items (firstn 4 ex_items ++ ShowDollar :: skipn 5 ex_items) = true /\ consumes ShowDollar = true
+  /\ texts nat ex_render ex_show (firstn 4 ex_items) [1; 2] = Some [[1; 1]; [2; 2]; [32; 97]; [37]]
+  /\ nconsumers (firstn 4 ex_items) = length [1; 2].
+Proof. repeat split. Qed.
